@@ -552,6 +552,8 @@ type Memory struct {
 	savePool *errgroup.Group
 	// sync lock (read: flush, write: sync)
 	syncMx sync.RWMutex
+	// writes tracks forked DB writes, so Sync can wait for them.
+	writes sync.WaitGroup
 	// garbage collector lock (read: query, write: GC)
 	gcMx sync.RWMutex
 	// TODO use Context
@@ -996,6 +998,7 @@ func (m *Memory) Sync() error {
 	m.syncMx.Lock()
 	defer m.syncMx.Unlock()
 	m.writeDb(false)
+	m.writes.Wait()
 
 	m.log("sync OK")
 
@@ -1022,7 +1025,9 @@ func (m *Memory) writeDb(rLocked bool) {
 	m.SavePending.Add(-int32(l))
 
 	// fork
+	m.writes.Add(1)
 	go m.savePool.Go(func() error {
+		defer m.writes.Done()
 		if m.disposed.Load() {
 			return nil
 		}
